@@ -43,6 +43,23 @@ PROPS = {
         "trusted_base": COMMON_TB,
         "assumptions": ["u64 overflow of chunk_index*chunk_size excluded", "serde_json round trip of the configuration is exercised (via=meta), not modelled"],
     },
+    "C12": {
+        "claimed": False,
+        "lean_props": ["ZarrsModel.Props.C12"],
+        "harness": "c12",
+        "driver_gen_also": True,
+        "rule": "direction w (zarrs writes, the specification-level reader reads): V3 arrays of rank 0..3 with ragged edges, 4 data types, non-zero fill values, default/v2 key encodings with either separator, "
+                "chains of 0..2 transposes, `bytes` in either byte order or `sharding_indexed` (inner transposes/bytes/gzip/crc32c, either index location, either index byte order, with/without index checksum), "
+                "gzip/crc32c in any order; V2 arrays with C/F order, either byte order, `.`/`/`/default separator, compressor null/zlib/gzip, filters null/[]/absent; 2..8 (thorough 12) region/chunk writes and "
+                "erasures each, every stored value dumped and decoded by the model after a third of the operations and at the end. Direction r (the model writes, zarrs reads): the same configuration space, "
+                "values encoded by the model with layout choices zarrs never makes (inner chunks in reverse order, 0/1/5 bytes of padding before each, stored-block or fixed-Huffman DEFLATE, gzip FEXTRA/FNAME "
+                "fields, whole chunks left out), read through Array::open + retrieve_array_subset (whole and 3 random regions) + retrieve_chunk; non-trivial = distinct request whose outcome is a non-empty value or dump",
+        "nontrivial": lambda l: (" -> val " in l and not l.endswith("~")) or (" -> kv " in l and not l.endswith("~")),
+        "exhaustive": False,
+        "trusted_base": COMMON_TB + ["the specification-level reader/writer (Zarrs.Conform, Zarrs.Inflate) is this check's reading of the Zarr V3/V2 specifications and RFC 1950-1952; its DEFLATE decoder is validated against Python's zlib at levels 0/1/6/9 (lib/selftest)"],
+        "assumptions": ["data types with a specified binary form of 1/2/4/8 bytes (complex and raw-bits types differ only in element size handling)", "one level of sharding"],
+        "timeout": 3000,
+    },
     "C13": {
         "claimed": False,
         "lean_props": ["ZarrsModel.Props.C13"],
